@@ -263,7 +263,7 @@ class Gen:
             for _ in range(nargs):
                 a = self.name("a")
                 p["args"].append(a)
-                if not in_interface and not p.get("_pure") and self.cfg["interfaces"] and ch.bool(1, 12) \
+                if not in_interface and not p.get("_pure") and not p.get("_elemental") and self.cfg["interfaces"] and ch.bool(1, 12) \
                         and "dummy_proc_iface" not in self.excl:
                     body = {"k": "subroutine", "name": a, "args": [], "prefix": [], "decls": [], "doc": None}
                     z = self.name("z")
